@@ -715,6 +715,9 @@ func main() {
 					rounds := 1
 					if pn == "tiny" {
 						rounds = 3
+						if thorough {
+							rounds = 10
+						}
 					}
 					for k := 0; k < rounds; k++ {
 						hcs = append(hcs, hcaseJSON{"handshake", pn, a, s, k})
